@@ -282,7 +282,10 @@ def run(ctx):
             ctx.check(okd, "D5-LINE", LFB, "Checksum", "Checksum line only for a digest name that parses", "Line::Checksum is produced without Digest::from_str succeeding", fn_span(body))
         # failures of the two parsers return None
         for what, callee in (("bad-size", "FromStr for u64>::from_str"), ("unknown-algorithm", "Digest as std::str::FromStr>::from_str")):
-            errs = [p for p in ret_paths(paths) if any(c.term[0] == "discr" and is_call(c.term[1], callee) and (c.fact == ("eq", 1) or (c.fact[0] == "ne" and 0 in c.fact[1])) for c in p.conds())]
+            def is_parser(t, callee=callee):
+                # (value.parse::<u64>() is u64::from_str(value))
+                return is_call(t, callee) or (callee.startswith("FromStr for u64") and is_call(t, "str>::parse") and any("u64" == str(g).strip() for g in t[2]))
+            errs = [p for p in ret_paths(paths) if any(c.term[0] == "discr" and is_parser(c.term[1]) and (c.fact == ("eq", 1) or (c.fact[0] == "ne" and 0 in c.fact[1])) for c in p.conds())]
             ok = bool(errs) and all(agg_variant(p.end[1]) and agg_variant(p.end[1])[1] == "None" for p in errs)
             ctx.check(ok, "D5-DROP", LFB, what, "%s -> Line::None" % what, "a line with %s does not become Line::None" % what, fn_span(body))
     # D5-WHOLE-LINE: the fields are cut from the whole line (leading blanks skipped, nothing else removed): a line is never truncated
